@@ -284,4 +284,435 @@ theorem recvReply_kexReply (blob f sig : Bytes) (hb : blob.length < 2 ^ 32) (hf 
   simp only [getBytes_sstr _ _ hb, getBytes_sstr _ _ hf, getBytes_sstr_nil _ hs, bind, Except.bind, pure, Except.pure]
   cases parseHostKey blob <;> rfl
 
+/-! ### `extendDesc` slot by slot -/
+
+theorem getD_pad (d : List (List (Option Str))) (k i : Nat) : (d ++ List.replicate k []).getD i [] = d.getD i [] := by
+  simp only [List.getD_eq_getElem?_getD]
+  by_cases h : i < d.length
+  · rw [List.getElem?_append_left h]
+  · rw [List.getElem?_append_right (by omega)]
+    have : d[i]? = none := List.getElem?_eq_none (by omega)
+    rw [this]
+    by_cases h2 : i - d.length < k
+    · simp [h2]
+    · simp [h2]
+
+theorem slot_extendDesc (fails warns : List Str) (d : List (List (Option Str))) (i : Nat) :
+    (extendDesc fails warns d).getD i [] =
+      if i = 1 then d.getD 1 [] ++ fails.map some else if i = 2 then d.getD 2 [] ++ warns.map some else d.getD i [] := by
+  unfold extendDesc
+  generalize hp : d ++ List.replicate (3 - d.length) [] = p
+  have hlen : 3 ≤ p.length := by rw [← hp]; simp; omega
+  have hget : ∀ j, p.getD j [] = d.getD j [] := by intro j; rw [← hp]; exact getD_pad d _ j
+  simp only [List.getD_eq_getElem?_getD, List.getElem?_mapIdx]
+  by_cases h1 : i = 1
+  · subst h1
+    have : (1 : Nat) < p.length := by omega
+    simp only [List.getElem?_eq_getElem this, Option.map_some, Option.getD_some, if_true]
+    have := hget 1
+    simp only [List.getD_eq_getElem?_getD, List.getElem?_eq_getElem (show 1 < p.length by omega), Option.getD_some] at this
+    rw [this]
+  · by_cases h2 : i = 2
+    · subst h2
+      have : (2 : Nat) < p.length := by omega
+      simp only [List.getElem?_eq_getElem this, Option.map_some, Option.getD_some, if_true, h1, if_false]
+      have := hget 2
+      simp only [List.getD_eq_getElem?_getD, List.getElem?_eq_getElem (show 2 < p.length by omega), Option.getD_some] at this
+      rw [this]
+    · simp only [h1, h2, if_false]
+      have := hget i
+      simp only [List.getD_eq_getElem?_getD] at this
+      rw [← this]
+      cases p[i]? <;> simp [h1, h2]
+
+/-! ### the loop of `perform_test` -/
+
+variable {σ : Type}
+
+theorem step_halted (cfg : Cfg) (srv : σ → Str → Outcome × σ) (keys : List Str) (st : St σ) (t : HostKeyType)
+    (h : st.halt.isSome = true) : step cfg srv keys st t = st := by
+  unfold step; simp only [h, if_true]
+
+theorem step_parsed (cfg : Cfg) (srv : σ → Str → Outcome × σ) (keys : List Str) (st : St σ) (t : HostKeyType)
+    (h : st.parsed.contains t.name = true) : step cfg srv keys st t = st := by
+  unfold step
+  by_cases hh : st.halt.isSome = true
+  · simp only [hh, if_true]
+  · simp only [hh, h, if_true, if_false, Bool.false_eq_true]
+
+theorem step_not_offered (cfg : Cfg) (srv : σ → Str → Outcome × σ) (keys : List Str) (st : St σ) (t : HostKeyType)
+    (h : keys.contains t.name = false) : step cfg srv keys st t = st := by
+  unfold step
+  by_cases hh : st.halt.isSome = true
+  · simp only [hh, if_true]
+  · by_cases hp : st.parsed.contains t.name = true
+    · simp only [hh, hp, if_true, if_false, Bool.false_eq_true]
+    · simp only [hh, hp, h, if_true, if_false, Bool.false_eq_true]
+
+theorem foldl_not_offered (cfg : Cfg) (srv : σ → Str → Outcome × σ) (keys : List Str) (ts : List HostKeyType) (st : St σ)
+    (h : ∀ t ∈ ts, keys.contains t.name = false) : ts.foldl (step cfg srv keys) st = st := by
+  induction ts generalizing st with
+  | nil => rfl
+  | cons t ts ih =>
+    rw [List.foldl_cons, step_not_offered cfg srv keys st t (h t (by simp))]
+    exact ih st (fun u hu => h u (by simp [hu]))
+
+theorem foldl_parsed (cfg : Cfg) (srv : σ → Str → Outcome × σ) (keys : List Str) (ts : List HostKeyType) (st : St σ)
+    (h : ∀ t ∈ ts, st.parsed.contains t.name = true) : ts.foldl (step cfg srv keys) st = st := by
+  induction ts generalizing st with
+  | nil => rfl
+  | cons t ts ih =>
+    rw [List.foldl_cons, step_parsed cfg srv keys st t (h t (by simp))]
+    exact ih st (fun u hu => h u (by simp [hu]))
+
+/-- the probe of a plain (non-certificate) RSA-family type that is answered -/
+theorem step_family_got (cfg : Cfg) (srv : σ → Str → Outcome × σ) (keys : List Str) (st : St σ) (t : HostKeyType)
+    (o : Outcome) (s' : σ) (r : HKRec) (db' : DB)
+    (hh : st.halt = none) (hp : st.parsed.contains t.name = false) (hk : keys.contains t.name = true)
+    (hfam : cfg.rsaFamily.contains t.name = true) (hc : t.cert = false)
+    (hs : srv st.srv t.name = (o, s')) (hr : probeResult o = .got r)
+    (he : editAll st.db cfg.rsaFamily (comments cfg t.name false r.info.size r.info.caType r.info.caSize).1
+            (comments cfg t.name false r.info.size r.info.caType r.info.caSize).2 = some db') :
+    step cfg srv keys st t =
+      { st with srv := s', probes := st.probes ++ [t.name],
+                hostKeys := cfg.rsaFamily.foldl (fun h n => setHostKey h n r) (setHostKey st.hostKeys t.name r),
+                db := db', parsed := st.parsed ++ cfg.rsaFamily } := by
+  unfold step
+  simp only [hh, Option.isSome_none, Bool.false_eq_true, Bool.true_eq_false, if_false, hp, hk, hs, hr, hfam, hc, and_self, if_true, he]
+
+/-! ### host-key records -/
+
+def hasKey (hk : List (Str × HKRec)) (n : Str) : Bool := hk.any (·.1 = n)
+
+theorem hasKey_setHostKey_self (hk : List (Str × HKRec)) (n : Str) (r : HKRec) : hasKey (setHostKey hk n r) n = true := by
+  unfold setHostKey hasKey
+  by_cases h : hk.any (·.1 = n) = true
+  · rw [if_pos h]; exact h
+  · rw [if_neg h]; simp
+
+theorem hasKey_setHostKey_mono (hk : List (Str × HKRec)) (n m : Str) (r : HKRec) (h : hasKey hk m = true) :
+    hasKey (setHostKey hk n r) m = true := by
+  unfold setHostKey
+  by_cases h' : hk.any (·.1 = n) = true
+  · rw [if_pos h']; exact h
+  · rw [if_neg h']; unfold hasKey at *; rw [List.any_append, h]; rfl
+
+theorem allR_setHostKey (hk : List (Str × HKRec)) (n : Str) (r : HKRec) (h : ∀ e ∈ hk, e.2 = r) : ∀ e ∈ setHostKey hk n r, e.2 = r := by
+  unfold setHostKey
+  by_cases h' : hk.any (·.1 = n) = true
+  · rw [if_pos h']; exact h
+  · rw [if_neg h']
+    intro e he
+    rw [List.mem_append] at he
+    rcases he with he | he
+    · exact h e he
+    · simp only [List.mem_singleton] at he; rw [he]
+
+theorem dictGet_of_hasKey (hk : List (Str × HKRec)) (n : Str) (r : HKRec) (h : hasKey hk n = true) (ha : ∀ e ∈ hk, e.2 = r) :
+    dictGet hk n = some r := by
+  unfold dictGet
+  unfold hasKey at h
+  rw [List.any_eq_true] at h
+  obtain ⟨e, he, hen⟩ := h
+  cases hf : hk.find? (·.1 = n) with
+  | none =>
+    have := List.find?_eq_none.mp hf e he
+    exact absurd hen this
+  | some x =>
+    have hx := List.mem_of_find?_eq_some hf
+    simp [ha x hx]
+
+theorem foldl_setHostKey (names : List Str) (hk : List (Str × HKRec)) (r : HKRec) (ha : ∀ e ∈ hk, e.2 = r) :
+    (∀ e ∈ names.foldl (fun h n => setHostKey h n r) hk, e.2 = r) ∧
+    (∀ m, hasKey hk m = true → hasKey (names.foldl (fun h n => setHostKey h n r) hk) m = true) ∧
+    (∀ n ∈ names, hasKey (names.foldl (fun h n => setHostKey h n r) hk) n = true) := by
+  induction names generalizing hk with
+  | nil => exact ⟨ha, fun _ h => h, fun _ h => by simp at h⟩
+  | cons a as ih =>
+    simp only [List.foldl_cons]
+    obtain ⟨i1, i2, i3⟩ := ih (setHostKey hk a r) (allR_setHostKey hk a r ha)
+    refine ⟨i1, fun m hm => i2 m (hasKey_setHostKey_mono hk a m r hm), ?_⟩
+    intro n hn
+    simp only [List.mem_cons] at hn
+    rcases hn with rfl | hn
+    · exact i2 _ (hasKey_setHostKey_self hk _ r)
+    · exact i3 n hn
+
+theorem dictGet_setHostKey_ne (hk : List (Str × HKRec)) (n m : Str) (r : HKRec) (h : m ≠ n) :
+    dictGet (setHostKey hk n r) m = dictGet hk m := by
+  unfold setHostKey
+  by_cases h' : hk.any (·.1 = n) = true
+  · rw [if_pos h']
+  · rw [if_neg h']
+    unfold dictGet
+    rw [List.find?_append]
+    have : List.find? (fun x => decide (x.1 = m)) [(n, r)] = none := by simp [Ne.symm h]
+    rw [this, Option.or_none]
+
+/-! ### database edits -/
+
+theorem lookup_editKey (db db' : DB) (name : Str) (f w : List Str) (h : editKey db name f w = some db') (n : Str) :
+    DBm.lookup db' Report.keyC n =
+      if n = name then (DBm.lookup db Report.keyC n).map (fun e => { e with desc := extendDesc f w e.desc }) else DBm.lookup db Report.keyC n := by
+  unfold editKey at h
+  cases hl : DBm.lookup db Report.keyC name with
+  | none => rw [hl] at h; simp at h
+  | some e =>
+    rw [hl] at h
+    simp only [Option.some.injEq] at h
+    rw [← h, Report.lookup_updateEntry]
+    simp
+
+theorem editKey_isSome (db : DB) (name : Str) (f w : List Str) (h : (DBm.lookup db Report.keyC name).isSome = true) :
+    ∃ db', editKey db name f w = some db' := by
+  unfold editKey
+  cases hl : DBm.lookup db Report.keyC name with
+  | none => rw [hl] at h; simp at h
+  | some e => exact ⟨_, rfl⟩
+
+theorem lookup_editAll (names : List Str) (hnd : names.Nodup) (db db' : DB) (f w : List Str) (h : editAll db names f w = some db') (n : Str) :
+    DBm.lookup db' Report.keyC n =
+      if n ∈ names then (DBm.lookup db Report.keyC n).map (fun e => { e with desc := extendDesc f w e.desc }) else DBm.lookup db Report.keyC n := by
+  induction names generalizing db with
+  | nil =>
+    simp only [editAll, List.foldlM_nil, pure, Option.some.injEq] at h
+    simp [h]
+  | cons a as ih =>
+    simp only [editAll, List.foldlM_cons, bind, Option.bind] at h
+    cases h1 : editKey db a f w with
+    | none => rw [h1] at h; simp at h
+    | some d1 =>
+      rw [h1] at h
+      have hnd' : as.Nodup := (List.nodup_cons.mp hnd).2
+      have hna : a ∉ as := (List.nodup_cons.mp hnd).1
+      have := ih hnd' d1 h
+      rw [this, lookup_editKey db d1 a f w h1]
+      by_cases hn : n = a
+      · subst hn; simp [hna]
+      · by_cases hm : n ∈ as
+        · simp [hn, hm]
+        · simp [hn, hm]
+
+theorem editAll_isSome (names : List Str) (db : DB) (f w : List Str) (h : ∀ n ∈ names, (DBm.lookup db Report.keyC n).isSome = true) :
+    ∃ db', editAll db names f w = some db' := by
+  induction names generalizing db with
+  | nil => exact ⟨db, rfl⟩
+  | cons a as ih =>
+    obtain ⟨d1, h1⟩ := editKey_isSome db a f w (h a (by simp))
+    have : ∀ n ∈ as, (DBm.lookup d1 Report.keyC n).isSome = true := by
+      intro n hn
+      rw [lookup_editKey db d1 a f w h1]
+      have := h n (by simp [hn])
+      split
+      · rw [Option.isSome_map]; exact this
+      · exact this
+    obtain ⟨d2, h2⟩ := ih d1 this
+    refine ⟨d2, ?_⟩
+    simp only [editAll, List.foldlM_cons, bind, Option.bind, h1]
+    exact h2
+
+/-! ### the RSA family inside the loop -/
+
+/-- the RSA-family part of a scan state: the family's records, its database entries, its probe connections -/
+def famView (cfg : Cfg) (st : St σ) : List (Option HKRec) × List (Option Entry) × List Str :=
+  (cfg.rsaFamily.map (dictGet st.hostKeys), cfg.rsaFamily.map (DBm.lookup st.db Report.keyC), st.probes.filter (fun p => cfg.rsaFamily.contains p))
+
+theorem filter_append_not (l : List Str) (x : Str) (p : Str → Bool) (h : p x = false) : (l ++ [x]).filter p = l.filter p := by
+  simp [List.filter_append, h]
+
+/-- a pass for a type outside the RSA family leaves the family's part of the state alone -/
+theorem step_other_famView (cfg : Cfg) (srv : σ → Str → Outcome × σ) (keys : List Str) (st : St σ) (t : HostKeyType)
+    (h : cfg.rsaFamily.contains t.name = false) : famView cfg (step cfg srv keys st t) = famView cfg st := by
+  have hne : ∀ n ∈ cfg.rsaFamily, n ≠ t.name := by
+    intro n hn he
+    rw [he] at hn
+    have : cfg.rsaFamily.contains t.name = true := by simpa using hn
+    rw [h] at this; cases this
+  unfold step
+  by_cases hh : st.halt.isSome = true
+  · simp only [hh, if_true]
+  · by_cases hp : st.parsed.contains t.name = true
+    · simp only [hh, hp, if_true, if_false, Bool.false_eq_true]
+    · by_cases hk : keys.contains t.name = false
+      · simp only [hh, hp, hk, if_true, if_false, Bool.false_eq_true]
+      · have hk := (Bool.not_eq_false _).mp hk
+        simp only [hh, hp, hk, if_false, Bool.false_eq_true, Bool.true_eq_false]
+        cases hr : probeResult (srv st.srv t.name).1 with
+        | stop => simp only [famView, filter_append_not _ _ _ h]
+        | skip => simp only [famView, filter_append_not _ _ _ h]
+        | got r =>
+          simp only [h, Bool.false_eq_true, and_false, if_false]
+          have hk1 : cfg.rsaFamily.map (dictGet (setHostKey st.hostKeys t.name r)) = cfg.rsaFamily.map (dictGet st.hostKeys) :=
+            List.map_congr_left (fun n hn => dictGet_setHostKey_ne _ _ _ _ (hne n hn))
+          cases he : editAll st.db [t.name] (comments cfg t.name t.cert r.info.size r.info.caType r.info.caSize).1
+              (comments cfg t.name t.cert r.info.size r.info.caType r.info.caSize).2 with
+          | none => simp only [famView, filter_append_not _ _ _ h, hk1]
+          | some db' =>
+            have hd : cfg.rsaFamily.map (DBm.lookup db' Report.keyC) = cfg.rsaFamily.map (DBm.lookup st.db Report.keyC) := by
+              apply List.map_congr_left
+              intro n hn
+              rw [lookup_editAll [t.name] (by simp) st.db db' _ _ he n]
+              have : n ∉ [t.name] := by simp [hne n hn]
+              rw [if_neg this]
+            simp only [famView, filter_append_not _ _ _ h, hk1, hd]
+
+theorem foldl_other_famView (cfg : Cfg) (srv : σ → Str → Outcome × σ) (keys : List Str) (ts : List HostKeyType) (st : St σ)
+    (h : ∀ t ∈ ts, cfg.rsaFamily.contains t.name = false) : famView cfg (ts.foldl (step cfg srv keys) st) = famView cfg st := by
+  induction ts generalizing st with
+  | nil => rfl
+  | cons t ts ih =>
+    rw [List.foldl_cons, ih _ (fun u hu => h u (by simp [hu])), step_other_famView cfg srv keys st t (h t (by simp))]
+
+/-! ### code-point order on strings and the insertion sort -/
+
+theorem char_trichotomy (a b : Char) : a < b ∨ a = b ∨ b < a := by
+  rcases Nat.lt_trichotomy a.val.toNat b.val.toNat with h | h | h
+  · exact Or.inl (by rw [Char.lt_def]; exact UInt32.lt_iff_toNat_lt.mpr h)
+  · exact Or.inr (Or.inl (Char.ext (UInt32.toNat_inj.mp h)))
+  · exact Or.inr (Or.inr (by rw [Char.lt_def]; exact UInt32.lt_iff_toNat_lt.mpr h))
+
+theorem ltStr_irrefl (a : Str) : Text.ltStr a a = false := by
+  induction a with
+  | nil => rfl
+  | cons x xs ih => simp [Text.ltStr, ih]
+
+theorem ltStr_trans (a b c : Str) (h1 : Text.ltStr a b = true) (h2 : Text.ltStr b c = true) : Text.ltStr a c = true := by
+  induction a generalizing b c with
+  | nil =>
+    cases b with
+    | nil => simp [Text.ltStr] at h1
+    | cons y ys => cases c with
+      | nil => simp [Text.ltStr] at h2
+      | cons z zs => simp [Text.ltStr]
+  | cons x xs ih =>
+    cases b with
+    | nil => simp [Text.ltStr] at h1
+    | cons y ys =>
+      cases c with
+      | nil => simp [Text.ltStr] at h2
+      | cons z zs =>
+        simp only [Text.ltStr] at h1 h2 ⊢
+        by_cases hxy : x < y
+        · by_cases hyz : y < z
+          · simp [Char.lt_trans hxy hyz]
+          · simp only [hyz, if_false] at h2
+            by_cases hzy : z < y
+            · simp [hzy] at h2
+            · have : y = z := by rcases char_trichotomy y z with h | h | h <;> first | exact absurd h hyz | exact h | exact absurd h hzy
+              subst this; simp [hxy]
+        · simp only [hxy, if_false] at h1
+          by_cases hyx : y < x
+          · simp [hyx] at h1
+          · simp only [hyx, if_false] at h1
+            have : x = y := by rcases char_trichotomy x y with h | h | h <;> first | exact absurd h hxy | exact h | exact absurd h hyx
+            subst this
+            by_cases hxz : x < z
+            · simp [hxz]
+            · simp only [hxz, if_false] at h2 ⊢
+              by_cases hzx : z < x
+              · simp [hzx] at h2
+              · simp only [hzx, if_false] at h2 ⊢
+                exact ih ys zs h1 h2
+
+theorem ltStr_total (a b : Str) (h : a ≠ b) : Text.ltStr a b = true ∨ Text.ltStr b a = true := by
+  induction a generalizing b with
+  | nil =>
+    cases b with
+    | nil => exact absurd rfl h
+    | cons y ys => left; simp [Text.ltStr]
+  | cons x xs ih =>
+    cases b with
+    | nil => right; simp [Text.ltStr]
+    | cons y ys =>
+      simp only [Text.ltStr]
+      rcases char_trichotomy x y with hxy | hxy | hxy
+      · left; simp [hxy]
+      · subst hxy
+        have hne : xs ≠ ys := by intro e; apply h; rw [e]
+        simp only [Char.lt_irrefl, if_false]
+        exact ih ys hne
+      · right; simp [hxy]
+
+theorem ltStr_asymm (a b : Str) (h : Text.ltStr a b = true) : Text.ltStr b a = false := by
+  cases hb : Text.ltStr b a with
+  | false => rfl
+  | true =>
+    have := ltStr_trans a b a h hb
+    rw [ltStr_irrefl] at this
+    cases this
+
+def ltS (a b : Str) : Prop := Text.ltStr a b = true
+
+theorem mem_insertSorted (k x : Str) (l : List Str) : x ∈ insertSorted k l ↔ x = k ∨ x ∈ l := by
+  induction l with
+  | nil => simp [insertSorted]
+  | cons y ys ih =>
+    simp only [insertSorted]
+    split
+    · simp only [List.mem_cons, ih]
+      constructor
+      · rintro (h | h | h) <;> simp [h]
+      · rintro (h | h | h) <;> simp [h]
+    · simp [List.mem_cons]
+
+theorem mem_sortStrs (x : Str) (l : List Str) : x ∈ sortStrs l ↔ x ∈ l := by
+  induction l with
+  | nil => simp [sortStrs]
+  | cons y ys ih =>
+    have : sortStrs (y :: ys) = insertSorted y (sortStrs ys) := rfl
+    rw [this, mem_insertSorted, ih]; simp
+
+theorem sorted_insert (k : Str) (l : List Str) (hs : l.Pairwise ltS) (hk : k ∉ l) : (insertSorted k l).Pairwise ltS := by
+  induction l with
+  | nil => simp [insertSorted]
+  | cons x xs ih =>
+    have hx := List.pairwise_cons.mp hs
+    simp only [insertSorted]
+    by_cases hlt : Text.ltStr x k = true
+    · rw [if_pos hlt]
+      rw [List.pairwise_cons]
+      refine ⟨?_, ih hx.2 (fun h => hk (by simp [h]))⟩
+      intro y hy
+      rw [mem_insertSorted] at hy
+      rcases hy with rfl | hy
+      · exact hlt
+      · exact hx.1 y hy
+    · rw [if_neg hlt]
+      have hne : k ≠ x := fun e => hk (by simp [e])
+      have hkx : Text.ltStr k x = true := by
+        rcases ltStr_total k x hne with h | h
+        · exact h
+        · exact absurd h hlt
+      rw [List.pairwise_cons]
+      refine ⟨?_, hs⟩
+      intro y hy
+      simp only [List.mem_cons] at hy
+      rcases hy with rfl | hy
+      · exact hkx
+      · exact ltStr_trans k x y hkx (hx.1 y hy)
+
+theorem sorted_sortStrs (l : List Str) (hn : l.Nodup) : (sortStrs l).Pairwise ltS := by
+  induction l with
+  | nil => simp [sortStrs]
+  | cons x xs ih =>
+    have hx := List.nodup_cons.mp hn
+    have : sortStrs (x :: xs) = insertSorted x (sortStrs xs) := rfl
+    rw [this]
+    exact sorted_insert x _ (ih hx.2) (by rw [mem_sortStrs]; exact hx.1)
+
+theorem nodup_of_sorted (l : List Str) (h : l.Pairwise ltS) : l.Nodup := by
+  unfold List.Nodup
+  exact h.imp (fun {a b} hab => by intro e; subst e; unfold ltS at hab; rw [ltStr_irrefl] at hab; cases hab)
+
+/-- two label-sorted lists with the same members are equal -/
+theorem sorted_ext {β : Type} (a b : List (Str × β)) (ha : (a.map (·.1)).Pairwise ltS) (hb : (b.map (·.1)).Pairwise ltS)
+    (h : ∀ p, p ∈ a ↔ p ∈ b) : a = b := by
+  have pa : a.Pairwise (fun p q => ltS p.1 q.1) := List.pairwise_map.mp ha
+  have pb : b.Pairwise (fun p q => ltS p.1 q.1) := List.pairwise_map.mp hb
+  have na : a.Nodup := pa.imp (fun {p q} hpq => by intro e; subst e; unfold ltS at hpq; rw [ltStr_irrefl] at hpq; cases hpq)
+  have nb : b.Nodup := pb.imp (fun {p q} hpq => by intro e; subst e; unfold ltS at hpq; rw [ltStr_irrefl] at hpq; cases hpq)
+  have hperm : a.Perm b := (List.perm_ext_iff_of_nodup na nb).mpr h
+  exact List.Perm.eq_of_pairwise (le := fun p q => ltS p.1 q.1)
+    (fun p q _ _ h1 h2 => by unfold ltS at h1 h2; rw [ltStr_asymm _ _ h1] at h2; cases h2) pa pb hperm
+
 end SshAudit.HostKey
